@@ -373,10 +373,17 @@ func genBlock(r *hx.Rand, a *asm, w *world, self int, depthBudget int) {
 			if depthBudget > 0 {
 				genCreate(r, a, w)
 			}
-		case 9:
-			a.pushU(uint64(r.Intn(3))).op(0x40, 0x50) // BLOCKHASH
-		case 10:
-			a.pushU(0).pushU(0).pushU(32).pushU(0).pushU(uint64(1 + r.Intn(9))).pushU(100000).op(0xfa, 0x50) // precompile
+		case 9, 10:
+			switch r.Intn(4) {
+			case 3:
+				a.pushU(uint64(r.Intn(3))).op(0x40, 0x50) // BLOCKHASH
+			case 0:
+				genIdentity(r, a)
+			case 1:
+				genModexp(r, a)
+			default:
+				a.pushU(0).pushU(0).pushU(32).pushU(0).pushU(uint64(1 + r.Intn(9))).pushU(100000).op(0xfa, 0x50) // any precompile
+			}
 		default:
 			a.push(someAddress(r, w)).op(0xff) // SELFDESTRUCT
 		}
@@ -485,6 +492,54 @@ func storeBytes(a *asm, b []byte, off int) {
 	}
 }
 
+// genIdentity: data in memory, call the identity precompile (0x04) on it, overwrite the data, then use the return data
+func genIdentity(r *hx.Rand, a *asm) {
+	off := uint64(32 * r.Intn(8))
+	n := uint64(1 + r.Intn(64))
+	a.push(boundaryWord(r)).pushU(off).op(0x52).push(boundaryWord(r)).pushU(off + 32).op(0x52)
+	a.pushU(uint64(r.Intn(70))).pushU(uint64(512 + 32*r.Intn(4))).pushU(n).pushU(off)
+	kind := []byte{0xf1, 0xfa, 0xf4}[r.Intn(3)]
+	if kind == 0xf1 {
+		a.pushU(0)
+	}
+	a.pushU(4).op(0x5a, kind).op(0x50)
+	a.push(boundaryWord(r)).pushU(off).op(0x52)                              // overwrite the input region
+	a.op(0x3d).pushU(0).pushU(768).op(0x3e)                                  // RETURNDATACOPY(768, 0, RETURNDATASIZE)
+	a.pushU(768).op(0x51).pushU(uint64(r.Intn(4))).op(0x55)                   // MLOAD(768) -> slot
+}
+
+// genModexp: EIP-198 input with boundary operands (zero / empty exponent, modulus 0 / 1, base 0 / 1), call 0x05, copy the result
+func genModexp(r *hx.Rand, a *asm) {
+	pick := func() []byte {
+		switch r.Intn(7) {
+		case 0:
+			return nil
+		case 1:
+			return []byte{0}
+		case 2:
+			return []byte{1}
+		case 3:
+			return []byte{2}
+		case 4:
+			return []byte{0, 0, 1}
+		case 5:
+			return r.Bytes(1 + r.Intn(3))
+		default:
+			return r.Bytes(1 + r.Intn(32))
+		}
+	}
+	base, exp, mod := pick(), pick(), pick()
+	word := func(n int) []byte { b := make([]byte, 32); b[31] = byte(n); return b }
+	in := append(append(append([]byte{}, word(len(base))...), word(len(exp))...), word(len(mod))...)
+	in = append(append(append(in, base...), exp...), mod...)
+	if r.Chance(1, 5) && len(in) > 97 {
+		in = in[:len(in)-1] // truncated input: the missing bytes read as zero
+	}
+	storeBytes(a, in, 1024)
+	a.pushU(uint64(len(mod))).pushU(2048).pushU(uint64(len(in))).pushU(1024).pushU(5).op(0x5a, 0xfa).op(0x50)
+	a.op(0x3d).pushU(0).pushU(2048).op(0x3e).pushU(2048).op(0x51).pushU(uint64(r.Intn(4))).op(0x55)
+}
+
 // genInit: an init code; runtime codes are small programs without calls
 func genInit(r *hx.Rand, w *world) []byte {
 	in := newAsm()
@@ -505,6 +560,9 @@ func genInit(r *hx.Rand, w *world) []byte {
 		rt := genContract(r, w, 0, 1+r.Intn(2), 0)
 		if len(rt) > 200 {
 			rt = rt[:200]
+		}
+		if r.Bool() { // a frame memory of 4 KiB or more before the code is returned from it
+			in.pushU(uint64(1 + r.Intn(255))).pushU(uint64(4096 + 32*r.Intn(64))).op(0x52)
 		}
 		if r.Bool() {
 			in.pushU(uint64(1 + r.Intn(9))).pushU(uint64(r.Intn(3))).op(0x55) // constructor write
@@ -543,11 +601,17 @@ func genCreate(r *hx.Rand, a *asm, w *world) {
 	} else {
 		a.op(0xf0)
 	}
-	switch r.Intn(4) {
+	switch r.Intn(6) {
 	case 0:
 		a.op(0x50)
 	case 1:
 		a.pushU(uint64(4 + r.Intn(3))).op(0x55) // remember the address
+	case 2, 3: // let another frame run (it gets its own memory), then read the child's code back
+		other := bigHex(w.addrs[r.Intn(len(w.addrs))])
+		a.pushU(0).pushU(0).pushU(32).pushU(0).pushU(0).push(other).op(0x5a, 0xf1, 0x50)
+		a.op(0x80, 0x3f).pushU(6).op(0x55)                                  // DUP1 EXTCODEHASH -> slot 6
+		a.pushU(64).pushU(0).pushU(1536).op(0x83, 0x3c)                      // EXTCODECOPY(child, 1536, 0, 64)
+		a.pushU(1536).op(0x51).pushU(7).op(0x55).op(0x50)                    // MLOAD -> slot 7 ; POP child
 	default: // call the new contract
 		a.op(0x80).pushU(uint64(r.Intn(3))).op(0x55) // DUP1 slot SSTORE
 		a.pushU(32).pushU(0).pushU(0).pushU(0).pushU(uint64(r.Intn(2))).op(0x85, 0x5a, 0xf1) // ... value DUP6(addr) GAS CALL
